@@ -201,6 +201,11 @@ func execImpl(root store.Cursor, start Path, env *Env, text string) (res xsel.Re
 		return nil, fmt.Errorf("build: %v", berr), nil
 	}
 	c := cursorAt(root, start)
+	if !noRoutes {
+		if m := aftermath(root); m != "" {
+			return nil, routeMismatch{m}, nil
+		}
+	}
 	res, err = xsel.Exec(c, g, env.Settings(root)...)
 	if !noRoutes {
 		if m := alternateRoutes(root, start, env, g, res, err); m != "" {
